@@ -233,9 +233,12 @@ Copies(vm, p, from, rep) ==
 
 Budget == MaxItems - nit
 Done(s) == Len(s) = 1 /\ Exhausted(s[1])
-(* ovr: some `{` or string discarded an earlier initializer of (a part of) its subobject (p19) *)
-Overrides(lg) == \E i \in 1..Len(lg) : lg[i].k = "c" /\ \E j \in 1..(i - 1) : lg[j].k = "w" /\ PathPrefix(lg[i].p, lg[j].p)
-Case(it, vm, lg) == [ty |-> ty, toks |-> it, val |-> {[p |-> k, v |-> vm[k]] : k \in DOMAIN vm}, ovr |-> Overrides(lg)]
+(* dis: the initializers (path, value) that a later `{` or string for an enclosing subobject discarded
+   (p19); the harness uses it to recognise the open finding D35 (they survive in chibicc) exactly *)
+Discarded(lg) == {[p |-> lg[j].p, v |-> lg[j].v] :
+                    j \in {x \in 1..Len(lg) : lg[x].k = "w" /\ \E i \in (x + 1)..Len(lg) :
+                                                   lg[i].k = "c" /\ PathPrefix(lg[i].p, lg[x].p)}}
+Case(it, vm, lg) == [ty |-> ty, toks |-> it, val |-> {[p |-> k, v |-> vm[k]] : k \in DOMAIN vm}, dis |-> Discarded(lg)]
 Finish(s, it, vm, lg) == (Emit /\ Done(s)) => CSVWrite("%1$s", <<ToJson(Case(it, vm, lg))>>, IOEnv.OUT)
 
 ----------------------------------------------------------------------------
